@@ -17,16 +17,24 @@ From Soy Require Import Model.Bytes Model.Num Model.Values Model.Outcome Model.A
 Open Scope N_scope.
 
 (* ---------------- what the escaper guarantees for one literal ---------------- *)
-(* A CStrLit chunk is rendered as quote, JSEscape(s), quote.  For valid UTF-8
-   whose runes are in the BMP or printable, the ECMAScript reader gives back
-   exactly s -- in particular the body has no unescaped quote of its kind, no
-   raw LF / CR / U+2028 / U+2029 and no dangling backslash (the reader rejects
-   those) -- and, for EVERY s, the body contains no LF CR < > & = bytes, hence
-   no "</" (so no "</script>"), no "<!--", no "-->", no "]]>". *)
+(* A CStrLit chunk is rendered as quote, lit_body s, quote, where lit_body s is
+   the escaper soy calls applied to s (C14_lit_body: text/template's JSEscape, or
+   internal/jsescape when the tree under test calls that -- jsstr_pair_js is read
+   from soyjs/exec.go by tablegen).  For valid UTF-8 -- and, only while the
+   library's escaper is called, runes in the BMP or printable (lit_guard) -- the
+   ECMAScript reader gives back exactly s -- in particular the body has no
+   unescaped quote of its kind, no raw LF / CR / U+2028 / U+2029 and no dangling
+   backslash (the reader rejects those) -- and, for EVERY s, the body contains no
+   LF CR < > & = bytes, hence no "</" (so no "</script>"), no "<!--", no "-->",
+   no "]]>". *)
+Theorem C14_lit_body : forall s, lit_body s = js_escape_soy jsstr_pair_js is_print_tbl s.
+Proof. exact lit_body_eq. Qed.
+Print Assumptions C14_lit_body.
+
 Theorem C14_strlit_denotes : forall q s, q = 39 \/ q = 34 -> lit_guard s ->
-  render_chunk is_print_tbl (CStrLit q s) = q :: js_escape is_print_tbl s ++ [q]
-  /\ js_read_literal_q q (js_escape is_print_tbl s) = Some s
-  /\ Forall js_inert (js_escape is_print_tbl s).
+  render_chunk is_print_tbl (CStrLit q s) = q :: lit_body s ++ [q]
+  /\ js_read_literal_q q (lit_body s) = Some s
+  /\ Forall js_inert (lit_body s).
 Proof. exact strlit_denotes. Qed.
 Print Assumptions C14_strlit_denotes.
 
@@ -73,19 +81,32 @@ Print Assumptions C14_walk_chunks_wf.
 Theorem C14_literals_denote : forall o fuel name body cs, gen_file o fuel name body = Ok cs ->
   forall q s, In (CStrLit q s) cs -> lit_guard s ->
     (q = 39 \/ q = 34)
-    /\ js_read_literal_q q (js_escape is_print_tbl s) = Some s
-    /\ Forall js_inert (js_escape is_print_tbl s).
+    /\ js_read_literal_q q (lit_body s) = Some s
+    /\ Forall js_inert (lit_body s).
 Proof. exact literals_denote. Qed.
 Print Assumptions C14_literals_denote.
 
-(* FULL statement (no guard on astral non-printable runes) is FALSE of the
-   faithful model: text/template.JSEscape writes such a rune with five or six
-   hex digits (finding js-literal-astral-nonprint-5hex). *)
-Theorem C14_literals_astral_refuted :
+(* While the tree calls the library's escaper (jsstr_pair_js = false) the FULL
+   statement (no guard on astral non-printable runes) is FALSE of the faithful
+   model: text/template.JSEscape writes such a rune with five or six hex digits
+   (finding js-literal-astral-nonprint-5hex).  With internal/jsescape
+   (jsstr_pair_js = true) lit_guard is utf8_valid alone and the theorems above
+   are the full statement. *)
+Theorem C14_literals_astral_refuted : jsstr_pair_js = false ->
   exists s, utf8_valid s = true
             /\ render_chunk is_print_tbl (CStrLit 39 s) = [39; 92; 117; 70; 48; 48; 48; 48; 39]
-            /\ js_read_literal_q 39 (js_escape is_print_tbl s) <> Some s.
+            /\ js_read_literal_q 39 (lit_body s) <> Some s.
 Proof. exact literals_astral_refuted. Qed.
+
+(* the full statement, for a tree that calls internal/jsescape *)
+Theorem C14_literals_denote_repaired : jsstr_pair_js = true ->
+  forall o fuel name body cs, gen_file o fuel name body = Ok cs ->
+  forall q s, In (CStrLit q s) cs -> utf8_valid s = true ->
+    (q = 39 \/ q = 34)
+    /\ js_read_literal_q q (lit_body s) = Some s
+    /\ Forall js_inert (lit_body s).
+Proof. exact literals_denote_repaired. Qed.
+Print Assumptions C14_literals_denote_repaired.
 Print Assumptions C14_literals_astral_refuted.
 
 (* ---------------- the emission sites ---------------- *)
@@ -169,8 +190,8 @@ ns.a.t = function(opt_data, opt_sb, opt_ijData) {
 };
 "
     /\ In (CStrLit 39 (b "it's </script>")) cs /\ In (CStrLit 34 (b "a""b")) cs /\ In (CStrLit 39 [226; 128; 168; 92]) cs
-    /\ js_read_literal_q 34 (js_escape is_print_tbl (b "a""b")) = Some (b "a""b")
-    /\ js_read_literal_q 39 (js_escape is_print_tbl [226; 128; 168; 92]) = Some [226; 128; 168; 92]
+    /\ js_read_literal_q 34 (lit_body (b "a""b")) = Some (b "a""b")
+    /\ js_read_literal_q 39 (lit_body [226; 128; 168; 92]) = Some [226; 128; 168; 92]
     /\ defined_names cs = [b "ns.a.t"] /\ declared_objects cs = [b "ns"; b "ns.a"].
 Proof.
   eexists. split; [vm_compute; reflexivity|]. vm_compute.
